@@ -186,6 +186,12 @@ def oracle(case, res):
                               'event %d: expected type handlers %r first, got %r' % (idx, th, got)))
                 continue
             rest = got[len(th):]
+            # the group of source handlers: patterns in the order of their first registration, handlers per pattern in registration order
+            across = [h for pat in sh for h in sh[pat]]
+            if rest != across:
+                fails.append(('dispatch/source-handlers-registration-order/across-patterns',
+                              'event %d (source %s): source handlers ran as %r, registration order gives %r' % (idx, s, rest, across)))
+                continue
             for pat, hs in sh.items():
                 sub = [h for h in rest if h in hs]
                 # a handler may be registered under several patterns: compare order of first occurrences
